@@ -32,6 +32,19 @@ var tyOf = map[int]reflect.Type{
 	3: reflect.TypeOf(T3(0)), 4: reflect.TypeOf(T4(0)), 5: reflect.TypeOf(T5(0)),
 	10: reflect.TypeOf((*I0)(nil)).Elem(), 11: reflect.TypeOf((*I1)(nil)).Elem(),
 }
+
+// two DIFFERENT types that print the same name ("main.Dup"), ids 30 and 31:
+// the library identifies vertices by the printed type name, so only one of
+// them is used per operation
+func dupType() reflect.Type {
+	type Dup int
+	return reflect.TypeOf(Dup(0))
+}
+func dupType2() reflect.Type {
+	type Dup int
+	return reflect.TypeOf(Dup(0))
+}
+
 var concreteTys = []int{0, 1, 2, 3, 4, 5}
 var allTys = []int{0, 1, 2, 3, 4, 5, 10, 11}
 var ifaceTys = []int{10, 11}
@@ -47,6 +60,19 @@ func init() {
 		tidOfString[t.String()] = id
 		tidOfType[t] = id
 	}
+	tyOf[30], tyOf[31] = dupType(), dupType2()
+	tidOfType[tyOf[30]], tidOfType[tyOf[31]] = 30, 31
+}
+
+// dupTid says which of the two same-named types the current operation uses
+var dupTid = 30
+
+func tidOfName(s string) (int, bool) {
+	if s == tyOf[30].String() {
+		return dupTid, true
+	}
+	id, ok := tidOfString[s]
+	return id, ok
 }
 
 // universeTerm is the Coq term of the universe (u_iface, u_impl).
